@@ -89,3 +89,60 @@ class Garbage:
     def predict_proba(self, X):
         p = self._val(X)
         return np.column_stack([1 - p, p])
+
+
+# ---- helpers that are documented as displays / diagnostics / plots: calling them must never change what an estimator
+# ---- stores or what it returns later.  poke() calls every one the object has (default arguments, plus iptw_only=False where
+# ---- the signature offers it); exceptions are ignored (several helpers do not run on the installed numpy at all).
+POKE_METHODS = ['summary', 'positivity', 'standardized_mean_differences', 'run_diagnostics', 'plot_kde', 'plot_boxplot',
+                'plot_love', 'plot']
+
+
+def should_poke(df):
+    """a function of the data, so that a replay of the same case makes the same calls"""
+    try:
+        return (len(df) + int(np.nansum(np.asarray(df.iloc[:, -1], dtype=float)))) % 2 == 0
+    except Exception:   # noqa
+        return len(df) % 2 == 0
+
+
+def poke(obj):
+    import contextlib
+    import inspect
+    import io
+    import warnings
+    import matplotlib
+    matplotlib.use('Agg')
+    import matplotlib.pyplot as plt
+    called = []
+    for name in POKE_METHODS:
+        m = getattr(obj, name, None)
+        if not callable(m):
+            continue
+        variants = [{}]
+        try:
+            if 'iptw_only' in inspect.signature(m).parameters and getattr(obj, 'ipmw', None) is not None:
+                variants.append({'iptw_only': False})
+        except (TypeError, ValueError):
+            pass
+        for kw in variants:
+            try:
+                with contextlib.redirect_stdout(io.StringIO()), warnings.catch_warnings():
+                    warnings.simplefilter('ignore')
+                    m(**kw)
+                called.append(name)
+            except Exception:   # noqa
+                pass
+            finally:
+                plt.close('all')
+    return called
+
+
+def scramble(df):
+    """what a caller may do to HIS OWN frame after handing it to an estimator (in place, same object): permute every
+    column's values, overwrite, drop rows.  An estimator analyses the data it was given at construction."""
+    n = len(df)
+    perm = np.random.RandomState(7).permutation(n)
+    for c in list(df.columns):
+        df[c] = df[c].to_numpy()[perm[::-1] if c == df.columns[0] else perm]
+    df.drop(df.index[: max(1, n // 3)], inplace=True)
